@@ -9,7 +9,8 @@ COMMON_ASSUMPTIONS = [
 
 PROPERTIES: dict[str, dict] = {
     "C01": {
-        "rules": ["R-BLISS", "R-FLOW-CANON", "R-FLOW-SERIAL", "R-KEYS", "R-BIJ", "R-OWNFIRST", "R-HASH", "R-INDEXSPACE", "R-GRAPHBUILD", "R-REBUILD", "R-ATTRREAD", "R-GLOBAL", "R-IDXTRUTH", "R-CANONPATH", "R-INVCODE"],
+        "rules": ["R-BLISS", "R-FLOW-CANON", "R-FLOW-SERIAL", "R-KEYS", "R-BIJ", "R-OWNFIRST", "R-HASH", "R-INDEXSPACE", "R-GRAPHBUILD", "R-REBUILD", "R-ATTRREAD", "R-GLOBAL", "R-IDXTRUTH", "R-CANONPATH", "R-INVCODE",
+                  "R-COLS", "R-V2SAMPLE", "R-V3SAMPLE"],
         "thorough_rules": ["R-LIBSRC"],
         "technique": "information-flow (order/label/hash taint) abstract interpretation + index-space typing of the bliss call site",
         "explanation": "Non-interference proof over all paths of canonicalize_molecule and serialize_molecule: colours handed to bliss carry no "
@@ -58,7 +59,7 @@ PROPERTIES: dict[str, dict] = {
         "assumptions": COMMON_ASSUMPTIONS + ["attribute values of graphs reaching the serializer come from the readers or the parser"],
     },
     "C06": {
-        "rules": ["R-ATTRREAD", "R-KEYS", "R-PROV", "R-KWEXACT", "R-ZERO", "R-SUPERSEDE", "R-SPLICE", "R-INDEXSPACE", "R-GRAPHBUILD", "R-FLOW-SERIAL", "R-FLOW-CANON", "R-DISPATCH", "R-IDXTRUTH", "R-COLS", "R-COUNTSLINE"],
+        "rules": ["R-ATTRREAD", "R-KEYS", "R-PROV", "R-KWEXACT", "R-ZERO", "R-SUPERSEDE", "R-SPLICE", "R-INDEXSPACE", "R-GRAPHBUILD", "R-FLOW-SERIAL", "R-FLOW-CANON", "R-DISPATCH", "R-IDXTRUTH", "R-COLS", "R-COUNTSLINE", "R-V2SAMPLE", "R-V3SAMPLE"],
         "technique": "read-set analysis of the pipeline + provenance taint in the readers + partial evaluation of keyword recognizers",
         "explanation": "The pipeline reads only invariant code / partition / Z / symbol / mass / rad and no edge data; the invariant code is exactly "
                        "(Z, mass, rad); in both readers those attributes receive values only from their own fields (provenance labels); an unrelated "
@@ -111,7 +112,7 @@ PROPERTIES: dict[str, dict] = {
         "assumptions": COMMON_ASSUMPTIONS,
     },
     "C12": {
-        "rules": ["R-EFFECT", "R-COPY", "R-BIJ", "R-GLOBAL", "R-REBUILD", "R-ATTRREAD", "R-RECMERGE", "R-EDGEDATA"],
+        "rules": ["R-EFFECT", "R-COPY", "R-BIJ", "R-GLOBAL", "R-REBUILD", "R-ATTRREAD", "R-RECMERGE", "R-EDGEDATA", "R-BLISS"],
         "thorough_rules": ["R-LIBSRC"],
         "technique": "effect analysis (mutation of arguments / shared objects) + bijection proof of relabel maps",
         "explanation": "canonicalize_molecule mutates nothing reachable from its argument; serialize_molecule writes only the scratch key `explored`, "
@@ -120,7 +121,7 @@ PROPERTIES: dict[str, dict] = {
         "assumptions": COMMON_ASSUMPTIONS,
     },
     "C13": {
-        "rules": ["R-FLOW-CANON", "R-OWNFIRST", "R-FIXPOINT", "R-KEYS", "R-ATTRREAD", "R-GLOBAL", "R-CANONPATH", "R-INVCODE"],
+        "rules": ["R-FLOW-CANON", "R-OWNFIRST", "R-FIXPOINT", "R-KEYS", "R-ATTRREAD", "R-GLOBAL", "R-CANONPATH", "R-INVCODE", "R-COLS", "R-INDEXSPACE"],
         "technique": "taint analysis of the class values + structural rules on the refinement key and its termination idiom",
         "explanation": "Class values carry no label/order/hash taint; the refinement key starts with the atom's own class and continues with the sorted "
                        "neighbour classes, ids are dense ranks of the sorted key set; the driver returns only a partition whose class count equals "
@@ -137,7 +138,7 @@ PROPERTIES: dict[str, dict] = {
         "assumptions": COMMON_ASSUMPTIONS,
     },
     "C15": {
-        "rules": ["R-NOREC", "R-GRAMREC", "R-FAILSITES", "R-BIJ", "R-NOBONDS", "R-REJECT"],
+        "rules": ["R-NOREC", "R-GRAMREC", "R-FAILSITES", "R-BIJ", "R-NOBONDS", "R-REJECT", "R-FIXPOINT", "R-SERIALSAMPLE"],
         "technique": "call-graph cycle detection + grammar rule-graph acyclicity + enumeration of rejecting constructs in the pipeline",
         "explanation": "No input-dependent recursion in tucan code reachable from the public entry points; parse depth is bounded by the number of "
                        "grammar rules because the rule graphs (EBNF, G4, generated ATN) are acyclic; the pipeline contains no raise / size guard, and its one "
